@@ -6,7 +6,6 @@ import (
 	"fmt"
 	"go/token"
 	"sort"
-	"strings"
 
 	"golang.org/x/tools/go/ssa"
 )
@@ -90,11 +89,12 @@ func isAbsOfField(c *Ctx, fn *ssa.Function, v ssa.Value, field string) bool {
 
 func r13_4(c *Ctx, r *Report) {
 	const rule = "R13.4"
-	r.rule(rule, "New Year's Eve, as a decision table over month (1..12 and the leap months -1..-12), day (1..30) and whether tomorrow's lunar year differs: GetFestivals appends 除夕 iff |month| == 12 (a leap twelfth month included) and day >= 29 and the lunar year of Next(1) differs from this date's (evaluated from the code, helpers inline; the appended names are collected in order).")
+	r.rule(rule, "The festivals of a lunar date, as a decision table over month (1..12 and the leap months -1..-12), day (1..30) and whether tomorrow's lunar year differs: GetFestivals lists the entry of LunarUtil.FESTIVAL for month-day (none for a leap month) and then 除夕 iff |month| == 12 (a leap twelfth month included) and day >= 29 and tomorrow (Next(1), an abstract date of its own: the first day of the first month of the next year, or the following day of the same year) lies in the next lunar year — however the code finds that out (evaluated from the code, helpers inline; the appended names are collected in order).")
 	fn := c.Fn(r, rule, "calendar.(*Lunar).GetFestivals")
 	if fn == nil || len(fn.Params) != 1 {
 		return
 	}
+	fest := c.tabMap(r, rule, "LunarUtil", "FESTIVAL")
 	problems := map[string]bool{}
 	var bad []string
 	n := 0
@@ -118,42 +118,60 @@ func r13_4(c *Ctx, r *Report) {
 						problems["a lunar date other than tomorrow's is consulted"] = true
 						return nil, false
 					}
-					if rc, f, ok := getterField(c, v); ok && f == "Lunar.year" {
-						if o, ok := evalWith(fr, rc, leaf); ok {
-							if p, isP := o.(absPtr); isP && p.tag == "tomorrow" {
-								if turn {
-									return int64(2025), true
+					if rc, f, ok := getterField(c, v); ok && (f == "Lunar.year" || f == "Lunar.month" || f == "Lunar.day") {
+						if _, isParam := rc.(*ssa.Parameter); !isParam || fr.parent != nil {
+							if o, ok := evalWith(fr, rc, leaf); ok {
+								if p, isP := o.(absPtr); isP && p.tag == "tomorrow" {
+									// tomorrow as a date of its own: the first day of the next year, or the day after today
+									// in the same year (the 30th is followed by the first of a leap twelfth month)
+									ty, tm, td := int64(2024), m, d+1
+									if d == 30 {
+										tm, td = -12, 1
+									}
+									if turn {
+										ty, tm, td = 2025, 1, 1
+									}
+									switch f {
+									case "Lunar.year":
+										return ty, true
+									case "Lunar.month":
+										return tm, true
+									}
+									return td, true
 								}
-								return int64(2024), true
 							}
 						}
-						if ofr, o := fr.origin(rc); ofr.parent == nil && o == ssa.Value(fn.Params[0]) {
-							return int64(2024), true
+						if f == "Lunar.year" {
+							if ofr, o := fr.origin(rc); ofr.parent == nil && o == ssa.Value(fn.Params[0]) {
+								return int64(2024), true
+							}
 						}
 					}
 					return nil, false
 				}
 				ev := &evaluator{leaf: dayLeaf(c, fn.Params[0], env), inline: inlineLibrary}
-				eve := 0
-				ev.visit = func(fr *evalFrame, call *ssa.Call) {
-					callee := call.Common().StaticCallee()
-					if callee == nil || !strings.HasPrefix(callee.String(), "(*container/list.List).Push") || len(call.Common().Args) != 2 {
-						return
+				var pushed []string
+				ev.collectList(&pushed, func(o interface{}, ok bool) string {
+					if !ok {
+						return "?"
 					}
-					if o, ok := ev.eval(fr, unwrapIface(call.Common().Args[1]), 0); ok && o == interface{}("除夕") {
-						eve++
-					}
-				}
+					return fmt.Sprint(o)
+				})
 				_, outcome := ev.run(fn, nil, nil, nil, nil)
 				n++
-				want := 0
+				var want []string
+				if fest != nil {
+					if e, ok := fest.M[fmt.Sprintf("%d-%d", m, d)]; ok {
+						want = append(want, e.S)
+					}
+				}
 				if (m == 12 || m == -12) && d >= 29 && turn {
-					want = 1
+					want = append(want, "除夕")
 				}
 				if outcome != "return" {
 					bad = append(bad, fmt.Sprintf("month %d day %d: %s %s", m, d, outcome, ev.fail))
-				} else if eve != want {
-					bad = append(bad, fmt.Sprintf("month %d day %d, tomorrow in %s lunar year: 除夕 appended %d times, stated %d", m, d, map[bool]string{false: "the same", true: "the next"}[turn], eve, want))
+				} else if !equalStrs(pushed, want) {
+					bad = append(bad, fmt.Sprintf("month %d day %d, tomorrow in %s lunar year: lists %v, stated %v", m, d, map[bool]string{false: "the same", true: "the next"}[turn], pushed, want))
 				}
 			}
 		}
